@@ -115,6 +115,11 @@ def gen(run):
     for i in range(20 if quick else 800):
         W, H, data, _ = V.build_lossless(rng, rng.choice(["plain", "deep", "arbdeep"]))
         yield C.case(W, H, data), "valid-c19"
+    # long literal runs with red/blue/alpha codes of depth 15: a pixel costs more bits than a back-reference; the stream crosses
+    # several refills of the 4 KiB bit buffer at varying bit offsets (read-ahead computation, C08's anchor lossless.rs:303-313)
+    for i in range(40 if quick else 600):
+        W, H, data, _ = V.build_lossless(rng, "arbdeep", pixel_budget=6000)
+        yield C.case(W, H, data), "valid-arbdeep-long"
     # the documented strictness cases (libwebp accepts, webpsan refuses: must be classified as strict_exception)
     for v in sorted(G.STRICTNESS):
         for i in range(15 if quick else 300):
